@@ -48,4 +48,12 @@ def lfToCrlf : Bytes → Bytes
   | [] => []
   | c :: t => if c == 10 then 13 :: 10 :: lfToCrlf t else c :: lfToCrlf t
 
+/-- What C13 asks of a READER of source text (C13R2): the chunks it hands to the scanner, call after call,
+concatenate to `expected` (the text, minus the bytes the reader is documented to remove) — no byte lost, none
+duplicated, order kept —, every chunk fits the buffer it was given, and no chunk is empty (the scanner takes an
+empty result for the end of the input: an empty chunk before the end would cut the text, so "non-empty" is the
+progress clause). Defined on the list of chunks, independently of how any reader produces them. -/
+def Delivers (max : Nat) (chunks : List Bytes) (expected : Bytes) : Prop :=
+  chunks.flatten = expected ∧ ∀ c ∈ chunks, c ≠ [] ∧ c.length ≤ max
+
 end BlocV.Lex
